@@ -1,7 +1,17 @@
 # Shared by C18.py / C19.py: sampling of TLC behaviours of spec/ScCorr and case building for
 # harness/cmd/sccorr.
 import json
+import os
 import random
+
+
+def race_env():
+    """Under C36 the harness is built with -race: reports go to the log files of VERIF_RACE_DIR and
+    must not turn the harness's exit code into 66 (the workload has to run to its end)."""
+    d = os.environ.get("VERIF_RACE_DIR")
+    if not d:
+        return None
+    return {"GORACE": "log_path=%s/race halt_on_error=0 history_size=4 exitcode=0" % d}
 
 
 def step_kinds(b):
